@@ -541,6 +541,47 @@ func jobTriples(c *rt.Ctx, prop string, zip bool) {
 			}
 		}
 	}
+	// the context-length x message-length PLANE for verification: every context length 1..255 with every
+	// message length 0..320 under Ed25519ctx, and every context length 0..255 under Ed25519ph (64-byte
+	// digest): the honest signature is accepted, and (every fourth point) the message with one more byte
+	// is not. A buffer sized for "short context and short message" has its corner inside the plane.
+	c.Require("ctx-msg-plane")
+	if c.Config == "default" || c.Config == "" {
+		for cl := 0; cl <= 255; cl++ {
+			for ml0 := 0; ml0 <= 320; ml0 += 32 {
+				if !c.Take() {
+					continue
+				}
+				c.Class("ctx-msg-plane")
+				c.Distinct(fmt.Sprintf("plane %d %d", cl, ml0), true)
+				ctx := ""
+				if cl > 0 {
+					ctx = strings.Repeat("q", cl-1) + string([]byte{byte(cl)})
+				}
+				seed := seedOf(950 + cl%5)
+				if ml0 == 64 {
+					vs := variantSpec{ref.Ph, ctx}
+					msg := msgLen(64, cl)
+					compareTriple(c, prop, triple{ref.Public(seed), msg, ref.Sign(seed, msg, vs.v, []byte(ctx))}, vs, zip, "ctx-msg-plane-ph", nil)
+				}
+				if cl == 0 {
+					continue
+				}
+				vs := variantSpec{ref.Ctx, ctx}
+				for ml := ml0; ml < ml0+32 && ml <= 320; ml++ {
+					msg := msgLen(ml, cl)
+					base := triple{ref.Public(seed), msg, ref.Sign(seed, msg, vs.v, []byte(ctx))}
+					compareTriple(c, prop, base, vs, zip, "ctx-msg-plane-honest", nil)
+					if (cl+ml)%4 == 0 {
+						compareTriple(c, prop, triple{base.key, append(append([]byte{}, msg...), byte(ml)), base.sig}, vs, zip, "ctx-msg-plane-plus1", nil)
+					}
+				}
+			}
+		}
+	} else if c.Take() {
+		c.Class("ctx-msg-plane")
+		c.Distinct("plane: default configuration only", true)
+	}
 	// crossed histories: an honest verification under K1, then a triple under K2 = K1 xor mask whose
 	// signature was made with K1's secret scalar over the hash of K2's bytes (it satisfies the equation
 	// exactly if the verifier takes K1's decompressed point for K2), and the honest one again. Masks:
